@@ -19,6 +19,15 @@ CLAIMED = {
               "induction step over operation sequences. One known finding (moved-from append) is reported as KNOWN-FINDING."),
         note=TRUST + " T := elem (opaque 64-bit value whose assignment may raise); behaviour that differs between instantiations (move-only T) is covered only through unique_ptr/stub assumptions.",
         ref="5 (C06), 7", technique="CBMC function contracts (DFCC) with loop invariants on mechanically extracted C"),
+    "C17": dict(
+        text=("Unbounded modular proof on abstract strings (lengths symbolic up to 2^40): split, starts_with, replace_all and both join overloads are "
+              "extracted from /repo on every run and verified against contracts that transcribe the string laws: split cuts exactly at the "
+              "left-to-right non-overlapping occurrences (one find per piece, each result the least match >= start, next start = match + |needle|), "
+              "replace_all is a single pass in ORIGINAL coordinates whose finds never start inside rewritten text and whose loop has a decreasing "
+              "measure (termination for every input), starts_with is the match predicate at position 0, join never writes a leading or doubled "
+              "infix and removes only a trailing infix. Two known findings of join are reported as KNOWN-FINDING."),
+        note=TRUST + " std::string::find/substr/replace, vector::emplace_back and stringstream are assumed contracts; the glue-back/count corollaries follow from the per-piece clauses by a paper argument (DESIGN.md 5, C17).",
+        ref="5 (C17)", technique="CBMC function contracts (DFCC) over abstract strings with ghost find/edit logs and loop variants"),
     "C07": dict(
         text=("Same functions as C06, abstract-view postconditions: appends add at the end, erase removes one element and shifts the tail, "
               "positional emplace inserts before pos, copy yields equal elements on independent storage, move/assignment transfer the whole "
